@@ -233,10 +233,11 @@ def run(chk):
     for e, m in zip(events, meta):
         chk.judged((m[0], "t", str(m[3]), m[2]))
     compose.run(chk, "wires")
+    compose.run_variants(chk, "wires")
 
 
 def replay(chk, rec):
-    if "compose" in rec.get("case", {}):
+    if any(k in rec.get("case", {}) for k in ("compose", "members", "variants")):
         return compose.replay(chk, rec, "wires")
     c = rec["case"]
     variants = [tuple(v) for v in c["variants"]]
